@@ -2376,30 +2376,30 @@ _R5_FLOORS = {
     'thorough': {
         'nontrivial': 2700000,
         'M': {
-            'M.match': 21000000, 'M.error': 780000, 'M.stale': 510000, 'M.long.files': 93000, 'M.long.find': 590000,
-            'M.long.reparse': 13000, 'M.long.reparse.find': 400000, 'M.ws-ns.order': 21000, 'M.ws-ns.find': 97000},
+            'M.match': 22000000, 'M.error': 830000, 'M.stale': 540000, 'M.long.files': 95000, 'M.long.find': 600000,
+            'M.long.reparse': 14000, 'M.long.reparse.find': 410000, 'M.ws-ns.order': 21000, 'M.ws-ns.find': 100000},
         'C': {
-            'nontrivial:near-miss': 8800000, 'nontrivial:hit': 6600000, 'long:documents': 13000,
-            'long:lists-beyond-one-text-line': 30000, 'long:joined-length:72-88': 3300, 'long:joined-length:89-199': 3800,
-            'long:joined-length:200-399': 10000, 'long:joined-length:400+': 15000,
-            'long:list-with-single-pattern-of-100+-characters': 10000, 'long:paragraph-via:create': 21000,
-            'long:paragraph-via:assign': 8500, 'long:paragraph-via:assign-in-doc': 8500, 'long:handed-over-as:list': 30000,
-            'long:handed-over-as:tuple': 8500, 'long:patterns-with-hyphen': 220000, 'long:patterns-with-wildcard': 77000,
-            'long:name:whole-hyphenated-pattern': 110000, 'long:name:whole-single-long-pattern': 8500,
+            'nontrivial:near-miss': 9200000, 'nontrivial:hit': 7100000, 'long:documents': 14000,
+            'long:lists-beyond-one-text-line': 30000, 'long:joined-length:72-88': 3300, 'long:joined-length:89-199': 3900,
+            'long:joined-length:200-399': 10000, 'long:joined-length:400+': 16000,
+            'long:list-with-single-pattern-of-100+-characters': 11000, 'long:paragraph-via:create': 21000,
+            'long:paragraph-via:assign': 8700, 'long:paragraph-via:assign-in-doc': 8600, 'long:handed-over-as:list': 30000,
+            'long:handed-over-as:tuple': 8700, 'long:patterns-with-hyphen': 220000, 'long:patterns-with-wildcard': 80000,
+            'long:name:whole-hyphenated-pattern': 120000, 'long:name:whole-single-long-pattern': 9200,
             'long:name:hyphen-fragment': 170000, 'long:name:width-fragment': 15000, 'long:name:glued-neighbours': 47000,
-            'long:re-assigned-lists': 6100, 'long:stale-distinguishing-name': 13000,
-            'long:matches-observed/built-through-api': 1100000, 'long:matches-observed/re-assigned': 560000,
-            'long:matches-observed/after-dump-and-reparse': 1100000, 'long-find:several-paragraphs-match': 85000,
-            'long-find:resolves-to-paragraph-with-list-beyond-one-text-line': 120000,
+            'long:re-assigned-lists': 6200, 'long:stale-distinguishing-name': 13000,
+            'long:matches-observed/built-through-api': 1200000, 'long:matches-observed/re-assigned': 560000,
+            'long:matches-observed/after-dump-and-reparse': 1200000, 'long-find:several-paragraphs-match': 89000,
+            'long-find:resolves-to-paragraph-with-list-beyond-one-text-line': 130000,
             'long-find:last-of-several-matching-is-a-long-list': 35000, 'long:dump-returned': 7000,
-            'long:dump-written-to-file-object': 6900, 'long:reparse-strict': 9300, 'long:reparse-strict=False': 4200,
-            'long:oracle-cross-checked-with-distance-dp': 180000, 'ws-ns:documents': 21000, 'ws-ns:sep:header/Files': 11000,
-            'ws-ns:sep:Files/Files': 27000, 'ws-ns:sep:Files/License': 15000, 'ws-ns:sep:License/Files': 14000,
+            'long:dump-written-to-file-object': 6900, 'long:reparse-strict': 9700, 'long:reparse-strict=False': 4200,
+            'long:oracle-cross-checked-with-distance-dp': 190000, 'ws-ns:documents': 21000, 'ws-ns:sep:header/Files': 11000,
+            'ws-ns:sep:Files/Files': 28000, 'ws-ns:sep:Files/License': 15000, 'ws-ns:sep:License/Files': 14000,
             'ws-ns:run:2+-lines': 69000, 'ws-ns:run:empty-line-first': 34000,
-            'ws-ns:run:whitespace-line-first-then-empty': 29000, 'ws-ns:longest-separator-run:3-lines': 7700,
-            'ws-ns:longest-separator-run:4-lines': 10000, 'ws-ns:source-family:list': 9000, 'ws-ns:source-family:file': 11000,
-            'ws-ns:matches-observed': 360000, 'ws-ns-find:several-paragraphs-match': 34000,
-            'ws-ns-find:resolves-to-paragraph-next-to-whitespace-only-separator': 70000,
+            'ws-ns:run:whitespace-line-first-then-empty': 30000, 'ws-ns:longest-separator-run:3-lines': 8100,
+            'ws-ns:longest-separator-run:4-lines': 10000, 'ws-ns:source-family:list': 9300, 'ws-ns:source-family:file': 11000,
+            'ws-ns:matches-observed': 360000, 'ws-ns-find:several-paragraphs-match': 35000,
+            'ws-ns-find:resolves-to-paragraph-next-to-whitespace-only-separator': 71000,
             'ws-build:documents-parsed-with-strict=False': 2900},
     },
 }
